@@ -201,6 +201,28 @@ class SymArray:
         return SymArray(rows, self.dtype_tag, (self._ncols, len(self.d)))
 
     # ---- indexing
+    # ---- views: a basic slice of a numpy array shares memory with it.  The slice object here holds its own element list;
+    #      every write into it (item / slice assignment, in-place operators) is pushed back into the array it was cut from.
+    def _view(self, sl):
+        r = SymArray(self.d[sl], self.dtype_tag)
+        r._base = ("slice", self, list(range(len(self.d)))[sl])
+        return r
+
+    def _sync(self):
+        b = self.__dict__.get("_base")
+        if b is None:
+            return
+        if b[0] == "slice":
+            _, base, idx = b
+            for k, j in enumerate(idx):
+                base.d[j] = self.d[k]
+            base._sync()
+        else:
+            _, rows, c = b
+            for k, row in enumerate(rows):
+                row.d[c] = self.d[k]
+                row._sync()
+
     def _mask_indices(self, mask):
         if len(mask) != len(self.d):
             raise IndexError("boolean index did not match indexed array")
@@ -218,18 +240,20 @@ class SymArray:
             if isinstance(r, slice):
                 rows = self.d[r]
                 if isinstance(c, slice):
-                    sub = [SymArray(row.d[c], self.dtype_tag) for row in rows]
+                    sub = [row._view(c) for row in rows]
                     return SymArray(sub, self.dtype_tag, (len(sub), len(sub[0].d) if sub else 0))
-                return SymArray([row.d[int(c)] for row in rows], self.dtype_tag)
+                col = SymArray([row.d[int(c)] for row in rows], self.dtype_tag)
+                col._base = ("column", rows, int(c))
+                return col
             row = self.d[int(r)]
             if isinstance(c, slice):
-                return SymArray(row.d[c], self.dtype_tag)
+                return row._view(c)
             return row.d[int(c)]
         if isinstance(i, slice):
             if self.ndim == 2:
                 rows = self.d[i]
                 return SymArray(rows, self.dtype_tag, (len(rows), self._ncols))
-            r = SymArray(self.d[i], self.dtype_tag)
+            r = self._view(i)
             if i.step is not None and int(i.step) < 0:
                 # a negative-stride view: logical order as sliced, memory order the reverse (what np.nditer / ravel(order="K")
                 # and anything else that walks memory sees); copies and fresh results are contiguous again
@@ -262,6 +286,13 @@ class SymArray:
         return v
 
     def __setitem__(self, i, v):
+        self._setitem_impl(i, v)
+        if self.ndim == 2:
+            for row in self.d:
+                row._sync()
+        self._sync()
+
+    def _setitem_impl(self, i, v):
         if isinstance(i, tuple):
             r, c = i
             if isinstance(r, slice):
@@ -347,6 +378,15 @@ class SymArray:
             dt = dtype or _promote(self.dtype_tag, o.dtype_tag)
             if self.ndim == 2 and o.ndim == 2:
                 if self.shape != o.shape:
+                    (r1, c1), (r2, c2) = self.shape, o.shape
+                    if r1 == r2 and c2 == 1:        # (n, m) with (n, 1): each row against its own scalar
+                        return SymArray([a._bin(b.d[0], f, dt) for a, b in zip(self.d, o.d)], dt, self.shape)
+                    if r1 == r2 and c1 == 1:
+                        return SymArray([SymArray([f(a.d[0], x) for x in b.d], dt) for a, b in zip(self.d, o.d)], dt, o.shape)
+                    if c1 == c2 and r2 == 1:
+                        return SymArray([a._bin(o.d[0], f, dt) for a in self.d], dt, self.shape)
+                    if c1 == c2 and r1 == 1:
+                        return SymArray([self.d[0]._bin(b, f, dt) for b in o.d], dt, o.shape)
                     raise ValueError(f"operands could not be broadcast together with shapes {self.shape} {o.shape}")
                 return SymArray([a._bin(b, f, dt) for a, b in zip(self.d, o.d)], dt, self.shape)
             if self.ndim == 2:
@@ -420,8 +460,10 @@ class SymArray:
         if self.ndim == 2:
             for ro, rr in zip(self.d, r.d):
                 ro.d[:] = [ro._coerce(v) for v in rr.d]
+                ro._sync()
         else:
             self.d[:] = [self._coerce(v) for v in r.d]
+        self._sync()
         return self
 
     def __iadd__(self, o): return self._inplace(self + o, "add")
